@@ -87,4 +87,24 @@ theorem bounds_only_when_spawning (c : Code) (ha : c.kind.isAsync = true) :
   simp only [printCode, ha, if_true]
   cases c.handlerDef <;> rfl
 
+/-- Non-vacuity: a three-branch program with depths (1, 3, 2); for `join!` its context exists, is not lazy, every step
+    generates, and the step has two or more elements (so the conclusions talk about something); for `join_spawn!` the same
+    program does get thread builders — the hypothesis `isSpawn = false` is what removes them. -/
+def costProg : Input :=
+  let ini : Member := ⟨.initial, false, .none, [⟨.expr, []⟩]⟩
+  let stp : Member := ⟨.map, true, .none, [⟨.expr, []⟩]⟩
+  { branches := [⟨none, [ini]⟩, ⟨none, [ini, stp, stp]⟩, ⟨none, [ini, stp]⟩] }
+
+example : (match mkCtx costProg ⟨false, false, false⟩ with
+    | .ok c => (c.lazy == false) && (match genStep c 1 with
+        | .ok s => s.elems.length == 2 && s.tbs.isEmpty && s.spawnJoin.isNone
+        | .error _ => false)
+    | .error _ => false) = true := by rfl
+
+example : (match mkCtx costProg ⟨false, false, true⟩ with
+    | .ok c => (match genStep c 1 with
+        | .ok s => s.elems.length == 2 && s.tbs.length == 2 && s.spawnJoin.isSome
+        | .error _ => false)
+    | .error _ => false) = true := by rfl
+
 end JoinModel.Props.C19
